@@ -28,6 +28,8 @@ def run(F, res, tier):
     from rules import c05 as _c05s18
     _c05s18.name_tables_have_one_duplicate_policy(F, res, rule="N8")   # a symbol declared twice is one symbol for rename
     _c05s18.qualified_types_do_not_fall_back(F, res, rule="N9")         # `other.Kind` is never the local `Kind` (rename would miss / capture it)
+    from rules import c09 as _c09n
+    _c09n.declared_types_are_read_in_their_own_module(F, res, rule="N10")   # chained field accesses across modules are found by rename
     R = pcache.results(F)
     n = 0
     for key, v in sorted(R["finish_sites"].items()):
